@@ -45,6 +45,8 @@ var (
 	vfC03Nets          = []string{
 		"192.0.2.0/24", "192.0.2.8/29", "192.0.2.10/32", "192.0.2.10/31", "0.0.0.0/0", "10.0.0.0/8", "198.51.100.0/30",
 		"2001:db8::/32", "2001:db8::/127", "2001:db8::1/128", "::/0", "fe80::/10", "128.0.0.0/1", "0.0.0.0/1",
+		// networks of IPv4 clients spelled in the IPv4-mapped form
+		"::ffff:192.0.2.0/120", "::ffff:10.0.0.0/104",
 	}
 	vfC03IDs    = []string{"alice", "bob", "kid-1", "x", "Kids-Tablet"}
 	vfC03Protos = []proxy.Proto{proxy.ProtoUDP, proxy.ProtoTCP, proxy.ProtoTLS, proxy.ProtoHTTPS, proxy.ProtoQUIC, proxy.ProtoDNSCrypt}
@@ -110,7 +112,7 @@ func vfC03DrawLists(t *rapid.T, label string) (l *vfC03Lists) {
 	for i := 0; i < nh; i++ {
 		d := vfDrawDomain(t, fmt.Sprintf("%s_h%d", label, i))
 		r := vfC03HostRule{Domain: d}
-		r.Kind = rapid.SampledFrom([]string{"exact", "domain", "domain", "wildcard", "pipe"}).Draw(t, fmt.Sprintf("%s_h%d_kind", label, i))
+		r.Kind = rapid.SampledFrom([]string{"exact", "domain", "domain", "wildcard", "pipe", "regex_nondigit"}).Draw(t, fmt.Sprintf("%s_h%d_kind", label, i))
 		var text string
 		switch r.Kind {
 		case "exact":
@@ -119,14 +121,18 @@ func vfC03DrawLists(t *rapid.T, label string) (l *vfC03Lists) {
 			text = "||" + d + "^"
 		case "wildcard":
 			text = "*." + d
+		case "regex_nondigit":
+			// a regular expression with a class written in upper case: names
+			// under d whose part in front of d holds no digit
+			text = `/^\D+\.` + strings.ReplaceAll(d, ".", `\.`) + `$/`
 		default:
 			text = "|" + d + "^"
 		}
-		if r.Kind != "exact" && rapid.IntRange(0, 3).Draw(t, fmt.Sprintf("%s_h%d_dnstype", label, i)) == 0 {
+		if r.Kind != "exact" && r.Kind != "regex_nondigit" && rapid.IntRange(0, 3).Draw(t, fmt.Sprintf("%s_h%d_dnstype", label, i)) == 0 {
 			r.Dnstype = dns.TypeA
 			text += "$dnstype=A"
 		}
-		if rapid.IntRange(0, 4).Draw(t, fmt.Sprintf("%s_h%d_upper", label, i)) == 0 && r.Dnstype == 0 {
+		if r.Kind != "regex_nondigit" && rapid.IntRange(0, 4).Draw(t, fmt.Sprintf("%s_h%d_upper", label, i)) == 0 && r.Dnstype == 0 {
 			text = strings.ToUpper(text[:1]) + text[1:]
 			if r.Kind == "exact" {
 				text = strings.ToUpper(text)
@@ -205,6 +211,11 @@ func vfNewC03Model(l *vfC03Lists) (m *vfC03Model) {
 			if ip, err := netip.ParseAddr(e); err == nil {
 				*ips = append(*ips, ip)
 			} else if p, perr := netip.ParsePrefix(e); perr == nil {
+				if p.Addr().Is4In6() && p.Bits() >= 96 {
+					// the IPv4 network, as the mapped address is the IPv4 client
+					p = netip.PrefixFrom(p.Addr().Unmap(), p.Bits()-96)
+					vfC03.Class("entry:mapped_network")
+				}
 				*nets = append(*nets, p)
 			} else {
 				*ids = append(*ids, e)
@@ -288,6 +299,10 @@ func (m *vfC03Model) hostBlocked(name string, qtype uint16) (blocked bool, ambig
 			}
 		case "domain":
 			if name == h.Domain || strings.HasSuffix(name, "."+h.Domain) {
+				return true, false
+			}
+		case "regex_nondigit":
+			if rest, ok := strings.CutSuffix(name, "."+h.Domain); ok && rest != "" && !strings.ContainsAny(rest, "0123456789") {
 				return true, false
 			}
 		case "wildcard":
